@@ -319,6 +319,27 @@ class Unit:
             if body_open is not None:
                 body_open = body_open   # the fn signature precedes every match arm: offset unchanged
             text = text2
+        if 'R19' in it.named_rules:
+            # `mut self` receiver: fn f(mut self, …) { … self … }  ->  fn f(self, …) { let mut this = self; … this … }
+            m0 = rustscan.mask(text)
+            mm = re.search(r'\(\s*mut self\b', m0)
+            if not mm or body_open is None:
+                raise UnitError('%s: rule R19 no longer applies in %s' % (self.name, it.path_text))
+            head = text[:body_open + 1]
+            body = text[body_open + 1:]
+            bmask = m0[body_open + 1:]
+            head = head[:mm.start()] + head[mm.start():mm.end()].replace('mut self', 'self') + head[mm.end():]
+            pieces = []
+            last = 0
+            for w in re.finditer(r'\bself\b', bmask):
+                pieces.append(body[last:w.start()] + 'this')
+                last = w.end()
+            pieces.append(body[last:])
+            indent = re.match(r'\n?([ \t]*)', body).group(1)
+            delta = len(head) - (body_open + 1)
+            text = head + ' let mut this = self;' + ''.join(pieces)
+            body_open = body_open + delta
+            rules.append('R19')
         msk = rustscan.mask(text)
         edits = []   # (pos, kind)
         # R16: body-opening braces of the fn and of loops go on their own line
